@@ -17,6 +17,10 @@ structure DState where
   racer : String := "none"
   prev : Option State := none        -- the implementation's previous snapshot
   everLinked : List Nat := []        -- actors that had a supervisor in some snapshot of the implementation
+  closedPrev : List Nat := []        -- the implementation's closed sets in its previous snapshot
+  targets : List Nat := []
+  /-- actors that lost their supervisor in a region of ANOTHER actor's thread (its `take_children`) -/
+  taken : List Nat := []
 
 def get (ws : List String) (k : String) : String :=
   match ws.find? (·.startsWith (k ++ "=")) with
@@ -33,24 +37,42 @@ def initCase (ws : List String) : DState :=
       | some p => cstepN (cstepN g (.setStatus p .running)) (.linkStart i p)
       | none => g) g1
   let g3 := (List.range n).foldl (fun g i => cstepN g (.setStatus i .running)) g2
-  { g := g3, n := n, parents := parents, racer := get ws "racer" }
+  { g := g3, n := n, parents := parents, racer := get ws "racer",
+    targets := (splitOnChar (get ws "targets") ',').filterMap (·.toNat?) }
 
 def xs (g : CState) (a : Nat) : CState := cstepN g (.xstep a)
 
-/-- the steps of machine `a` that the region starting at point `p` (and ending at `q`) executed -/
-def advance (g : CState) (a : Nat) (p q : String) : CState :=
+/-- the implementation's closed sets: actors whose kids field is `x` -/
+def closedOf (impl : String) : List Nat :=
+  (words ((impl.splitOn " |").getD 1 "")).filterMap fun w =>
+    match splitOnChar w ':' with
+    | [i, _, _, k, _] => if k == "x" then i.toNat? else none
+    | _ => none
+
+/-- the steps of machine `a` that the region starting at point `p` (and ending at `q`) executed.  The
+kill test of the next worklist entry is replayed together with its `take_children` (it only sets the
+ghost flag), because WHICH entry is next is the `HashMap`'s choice: it is read off the implementation's
+snapshot — the actor whose set this region closed (`closed`) — and put first by a `shuffle`. -/
+def advance (g : CState) (a : Nat) (p q : String) (closed : List Nat) : CState :=
   match p, g.pc a with
-  | "h.idle", .idle => if q == "tree.take" then xs (cstepN g (.begin a true)) a else g
+  | "h.idle", .idle => if q == "tree.take" then cstepN g (.begin a true) else g
   | "status.publish", .idle => xs (cstepN g (.begin a false)) a
   | "status.publish", .pub => xs g a
   | "status.publish", .publishStopped => xs g a
-  | "cleanup.terminate", .term true _ none => xs g a
-  | "tree.take", .term _ _ (some _) =>
-    let g1 := xs g a
-    match g1.pc a with
-    | .term _ (_ :: _) none => xs g1 a      -- next kill test, up to the next `tree.take`
-    | .term _ [] none => xs g1 a            -- the worklist is empty: on to `pub` / `detach`
-    | _ => g1
+  | "tree.take", .term _ pend none =>
+    let cands := pend.eraseDups
+    let z := match cands.find? (fun z => (g.t.kids z).isSome && closed.contains z) with
+      | some z => some z
+      | none => match cands.find? (fun z => (g.t.kids z).isNone) with
+        | some z => some z
+        | none => cands.head?
+    match z with
+    | none => g
+    | some z =>
+      let g1 := xs (xs (cstepN g (.shuffle a (z :: pend.erase z))) a) a
+      match g1.pc a with
+      | .term _ [] none => xs g1 a            -- the worklist is empty: on to `pub` / `detach`
+      | _ => g1
   | "cleanup.unlink", .detach =>
     let g1 := xs g a
     match g1.pc a with
@@ -59,62 +81,70 @@ def advance (g : CState) (a : Nat) (p q : String) : CState :=
   | "tree.unlink", .unl (some _) => xs g a
   | _, _ => g
 
+/-- like `showSnap`, a closed child set shown as `x` -/
+def showMx (t : State) : String :=
+  " ".intercalate ((List.range t.n).map fun i =>
+    let sup := match t.sup i with | some p => toString p | none => "-"
+    let kids := match t.kids i with | some ks => showNats (sortNats ks) | none => "x"
+    s!"{i}:{(t.status i).name}:{sup}:{kids}:0")
+
 def racerOp (r : String) : Option COp :=
   match splitOnChar r ':' with
   | ["link", c, p] => some (.link (c.toNat?.getD 0) (p.toNat?.getD 0))
   | ["unlink", c, p] => some (.unlink (c.toNat?.getD 0) (p.toNat?.getD 0))
   | _ => none
 
-/-- beneath `c` (or `c` itself) by the spawn-time parents -/
-partial def under (parents : List (Option Nat)) (c i : Nat) : Bool :=
-  i == c || (match parents.getD i none with | some p => p < i && under parents c p | none => false)
-
+/-- at rest: whoever got the exit cause is Stopped, and so is everybody whose supervisor link was cut by
+somebody else's `take_children` (it was linked beneath an exiting actor when that actor's worklist got
+there); an orphan whose link was accepted under the tree likewise (it is then in `taken` too) -/
 def restClauses (st : DState) (cur : State) : List String :=
   let stopped (i : Nat) : Bool := cur.status i == .stopped
-  match splitOnChar st.racer ':' with
-  | ["unlink", c, _] =>
-    let c := c.toNat?.getD 0
-    if (List.range st.n).all (fun i => under st.parents c i || stopped i) then [] else ["C05.subtree-dies"]
-  | ["link", c, _] =>
-    let c := c.toNat?.getD 0
-    (if (List.range st.n).all (fun i => i == c || stopped i) then [] else ["C05.subtree-dies"]) ++
-    (if st.everLinked.contains c && !stopped c then ["C05.race-orphan"] else [])
-  | _ => if (List.range st.n).all stopped then [] else ["C05.subtree-dies"]
+  (if st.targets.all stopped then [] else ["C05.exit-not-finished"]) ++
+  (if st.taken.all stopped then [] else ["C05.subtree-dies"])
 
 def step (st : DState) (op impl : String) : DState × StepOut :=
   let ws := words op
-  let snapOf (s : String) : Option State := (parseSnapshot? ("r=x |" ++ ((s.splitOn " |").getD 1 ""))).map (·.2)
+  let snapOf (s : String) : Option State :=
+    (parseSnapshot? ("r=x |" ++ (((s.splitOn " |").getD 1 "").replace ":x:" ":-:"))).map (·.2)
   let cur := snapOf impl
+  let closed := closedOf impl
   let judge (st : DState) (extra : List String) : List String × DState :=
     match cur with
     | none => (["unparsable"], st)
     | some c =>
       let o1 := if linksOk c && setsOk c && stoppedOk c then [] else ["C05.ok mx-snapshot"]
+      -- a Stopped actor's set is closed (not merely empty); a closed set stays closed
+      let o1 := o1 ++ (if (List.range c.n).all (fun i => c.status i != .stopped || closed.contains i) then [] else ["C05.stopped-with-open-set"])
+      let o1 := o1 ++ (if st.closedPrev.all closed.contains then [] else ["C05.closed-set-reopened"])
       let o2 := match st.prev with
         | some p => if gainOk p c then [] else ["C05.gain"]
         | none => []
       let linked := (List.range c.n).filter (fun i => (c.sup i).isSome)
-      (o1 ++ o2 ++ extra, { st with prev := some c, everLinked := (st.everLinked ++ linked).eraseDups })
+      (o1 ++ o2 ++ extra, { st with prev := some c, closedPrev := closed, everLinked := (st.everLinked ++ linked).eraseDups })
   match ws with
   | "mx" :: rest =>
     let st1 := initCase rest
     let (orc, st2) := judge st1 []
-    (st2, { model := s!"ok | {showSnap st1.g.t " "}", oracle := orc })
+    (st2, { model := s!"ok | {showMx st1.g.t}", oracle := orc })
   | ["g", tid, p] =>
     let tid := tid.toNat?.getD 0
     let q := ((impl.splitOn " |").getD 0 "").trimAscii.toString
-    let g1 := if tid < st.n then advance st.g tid p q
+    let g1 := if tid < st.n then advance st.g tid p q closed
               else match racerOp st.racer with
                 | some o => if p == "tree.link" || p == "tree.unlink" then cstepN st.g o else st.g
                 | none => st.g
-    let st1 := { st with g := g1 }
+    -- whose supervisor link did this region cut?
+    let cut := match st.prev, cur with
+      | some pr, some c => (List.range c.n).filter (fun j => (pr.sup j).isSome && (c.sup j).isNone && tid < st.n && tid != j)
+      | _, _ => []
+    let st1 := { st with g := g1, taken := (st.taken ++ cut).eraseDups }
     let (orc, st2) := judge st1 []
-    (st2, { model := s!"{q} | {showSnap g1.t " "}", oracle := orc,
+    (st2, { model := s!"{q} | {showMx g1.t}", oracle := orc,
             nontrivial := p != "h.idle" || q != "h.idle", key := some s!"{st.racer} {op} {impl}" })
   | ["rest"] =>
     let extra := match cur with | some c => restClauses st c | none => []
     let (orc, st2) := judge st extra
-    (st2, { model := s!"ok | {showSnap st.g.t " "}", oracle := orc, nontrivial := true })
+    (st2, { model := s!"ok | {showMx st.g.t}", oracle := orc, nontrivial := true })
   | _ => (st, { model := "?" })
 
 def run (ops impl : Array String) : IO Tally := replay ({} : DState) step ops impl
